@@ -454,5 +454,239 @@ class C17Lemma(LemmaUnit):
                [u1 != u2, a1 == (u1 == n), a2 == (u2 == n)], z3.Not(z3.And(a1, a2)))
 
 
-UNITS = [NextUnit, PutEndUnit, RenewUnit, GetPutUnit, GetPutUnitNoTimeout, RQGet, RQPut, C17Lemma]
+
+# ================================================================ construction, pickling state, put
+class IQInit(Unit):
+    """IterableQueue.__init__: three token queues, EACH of capacity exactly num_suppliers (the end-of-round test is `_used_lids.full()`), the spare one
+    filled with exactly num_suppliers tokens; a stop event wraps the data queue in ResponsiveQueue; everything is stored."""
+    prop = 'C17'
+    file = F
+    qual = 'IterableQueue.__init__'
+    variant = 'thread queue'
+    kind = 'thread'
+    with_stop = False
+    unreachable_ok = ()
+    canaries = (('token queues one slot larger (full() never true)', 'self._used_lids = queue.Queue(maxsize=num_suppliers)', 'self._used_lids = queue.Queue(maxsize=num_suppliers + 1)', ''),
+                ('one spare token short', 'for _ in range(num_suppliers):\n            self._spare_lids.put(None)', 'for _ in range(num_suppliers - 1):\n            self._spare_lids.put(None)', ''))
+
+    def setup(self, ex):
+        st = St()
+        self.n = z3.Int('num_suppliers')
+        st.assume(self.n >= 1)
+        self.me = Rec(ex, 'self')
+        self.me.havoc = lambda ex2, st2: None          # the loop only puts tokens on a queue: no attribute of self is rebound in it
+        self.q = Rec(ex, 'q', immutable=True)
+        self.q.qkind = self.kind
+        self.stop = Rec(ex, 'to_stop', immutable=True) if self.with_stop else NONE
+        st.env.update(self=self.me, q=self.q, num_suppliers=self.n, to_stop=self.stop)
+        st.ghost['made'] = ()
+        st.ghost['spare_puts'] = z3.IntVal(0)
+        unit = self
+
+        def mkq(kind):
+            def f(e, s, a, k, n):
+                o = Rec(e, 'tokq', methods={'put': Fn(unit.tok_put)})
+                o.qkind = kind
+                s = s.fork()
+                s.ghost['made'] = s.ghost['made'] + ((o, kind, k.get('maxsize', a[0] if a else None)),)
+                return [('ok', s, o)]
+            return Fn(f)
+        ex.globals['queue.Queue'] = mkq('thread')
+        ex.globals['multiprocessing.Queue'] = mkq('process')
+        ex.globals['threading.Lock'] = Fn(lambda e, s, a, k, n: [('ok', s, Rec(e, 'thread-lock', immutable=True))])
+        ex.globals['multiprocessing.Lock'] = Fn(lambda e, s, a, k, n: [('ok', s, Rec(e, 'process-lock', immutable=True))])
+        self.wrapped = None
+
+        def rq(e, s, a, k, n):
+            w = Rec(e, 'ResponsiveQueue', immutable=True)
+            w.qkind = 'wrapped'
+            w.inner = (unbox_handle(e, a[0]), unbox_handle(e, a[1]))
+            unit.wrapped = w
+            return [('ok', s, w)]
+        ex.globals['ResponsiveQueue'] = Fn(rq)
+
+        def isinstance_(e, s, a, k, n):
+            o = unbox_handle(e, a[0])
+            t = ast.unparse(n.args[1])
+            kind = getattr(o, 'qkind', None)
+            if t == 'multiprocessing.SimpleQueue':
+                return [('ok', s, z3.BoolVal(kind == 'mp-simple'))]
+            if t == '(queue.Queue, queue.SimpleQueue)':
+                return [('ok', s, z3.BoolVal(kind == 'thread'))]
+            raise Unsupported('isinstance ' + t)
+        ex.globals['isinstance'] = Fn(isinstance_)
+        ex.globals['range'] = Fn(lambda e, s, a, k, n: [('ok', s, RangeVal2(a[0]))])
+        return st
+
+    def tok_put(self, e, s, a, k, n):
+        s = s.fork()
+        s.ghost['spare_puts'] = s.ghost['spare_puts'] + 1
+        s.ghost['last_put_on'] = True
+        return [('ok', s, NONE)]
+
+    @property
+    def loops(self):
+        return {0: LoopSpec(inv=lambda s, ex: z3.And(s.ghost['spare_puts'] == s.ghost['ri2'], s.ghost['ri2'] >= 0, s.ghost['ri2'] <= self.n), keep_ghost=('made',))}
+
+    def post(self, ex, outs):
+        for k, s, p in outs:
+            if k not in ('normal', 'return'):
+                ex.oblige(s, 'exit(raise): only ValueError, only for a stop event together with a queue that cannot time out (multiprocessing.SimpleQueue); nothing was created',
+                          z3.And(V.isinst(p, 'ValueError'), z3.BoolVal(self.kind == 'mp-simple' and self.with_stop and len(s.ghost['made']) == 0)))
+                continue
+            if self.kind == 'mp-simple' and self.with_stop:
+                ex.oblige(s, 'exit: a stop event with a queue that cannot time out is refused', False)
+                continue
+            made = s.ghost['made']
+            g = lambda f: unbox_handle(ex, self.me.get(s, f))      # noqa: E731
+            ok = len(made) == 3 and [m[0] for m in made] == [g('_spare_lids'), g('_applied_lids'), g('_used_lids')]
+            from pyvc.core import as_int
+            sizes = z3.And([as_int(ex, s, m[2]) == self.n for m in made]) if ok and all(m[2] is not None for m in made) else z3.BoolVal(False)
+            dq = g('_q')
+            wrap_ok = (dq is self.wrapped and self.wrapped is not None and self.wrapped.inner == (self.q, self.stop)) if self.with_stop else (dq is self.q)
+            ex.oblige(s, 'exit: three distinct token queues, each of capacity exactly num_suppliers, the spare one holding exactly num_suppliers tokens, the others empty; the data queue is the given one'
+                         + (' wrapped in ResponsiveQueue(q, to_stop)' if self.with_stop else '') + '; num_suppliers and the stop event are stored; time-outs are possible unless the data queue is a multiprocessing.SimpleQueue',
+                      z3.And(z3.BoolVal(bool(ok and wrap_ok)), sizes, s.ghost['spare_puts'] == self.n, box(ex, self.me.get(s, '_num_suppliers')) == V.intv(self.n),
+                             z3.BoolVal(g('_to_stop') is self.stop if self.with_stop else z3.is_true(z3.simplify(box(ex, self.me.get(s, '_to_stop')) == NONE))),
+                             self.me.get(s, '_can_timeout') == z3.BoolVal(self.kind != 'mp-simple')))
+
+
+class RangeVal2(Obj):
+    def __init__(self, n):
+        self.n = n
+        self.oid = -31
+
+    def havoc(self, ex, st):
+        pass
+
+    def iter_start(self, ex, st, node):
+        st = st.fork()
+        st.ghost['ri2'] = z3.IntVal(0)
+        return [('ok', st, self)]
+
+    def havoc_index(self, st):
+        i = fresh('ri2', z3.IntSort())
+        st.assume(i >= 0)
+        st.ghost['ri2'] = i
+
+    def idx(self, st):
+        return st.ghost['ri2']
+
+    def pull(self, ex, st, node):
+        i = st.ghost['ri2']
+        s1 = st.fork().assume(i >= self.n)
+        s2 = st.fork().assume(i < self.n)
+        s2.ghost['ri2'] = i + 1
+        return [x for x in (('stop', s1, None), ('item', s2, i)) if ex.feasible(x[1])]
+
+
+class IQInitStop(IQInit):
+    variant = 'thread queue with a stop event'
+    with_stop = True
+    canaries = ()
+
+
+class IQInitProcess(IQInit):
+    variant = 'process queue'
+    kind = 'process'
+    canaries = ()
+
+
+class IQInitMpSimple(IQInit):
+    variant = 'multiprocessing.SimpleQueue'
+    kind = 'mp-simple'
+    canaries = ()
+
+
+class IQInitMpSimpleStop(IQInit):
+    variant = 'multiprocessing.SimpleQueue with a stop event'
+    kind = 'mp-simple'
+    with_stop = True
+    canaries = ()
+
+
+class IQState(Unit):
+    """__getstate__ / __setstate__: the tuple written and the tuple read list the same attributes in the same order (all eight of them), so an IterableQueue
+    passed to another process refers to the same data queue, token queues, lock and counters."""
+    prop = 'C17'
+    file = F
+    qual = 'IterableQueue.__getstate__'
+    canaries = (('two token queues swapped in the pickled state', '            self._applied_lids,\n            self._used_lids,\n            self._can_timeout,', '            self._used_lids,\n            self._applied_lids,\n            self._can_timeout,', ''),)
+    FIELDS = {'_q', '_to_stop', '_num_suppliers', '_spare_lids', '_applied_lids', '_used_lids', '_can_timeout', '_lids_lock'}
+
+    def run(self, override=None):
+        import hashlib
+        from pyvc.unit import load_source, find_function
+        from pyvc.core import Obligation
+        res = {'unit': self.name, 'status': 'ok', 'obligations': [], 'covers': {}, 'ignored': [], 'sha': None, 'error': None, 'paths': 1, 'lineno': None}
+        self.ex = None
+        try:
+            src = load_source(self.file, override)
+            tree = ast.parse(src)
+            g, s_ = find_function(tree, 'IterableQueue.__getstate__'), find_function(tree, 'IterableQueue.__setstate__')
+            res['lineno'] = g.lineno
+            res['sha'] = hashlib.sha256((ast.get_source_segment(src, g) + ast.get_source_segment(src, s_)).encode()).hexdigest()
+            ret = [x for x in ast.walk(g) if isinstance(x, ast.Return)]
+            asg = [x for x in ast.walk(s_) if isinstance(x, ast.Assign)]
+            out = [ast.unparse(e) for e in ret[0].value.elts] if len(ret) == 1 and isinstance(ret[0].value, ast.Tuple) else None
+            inn = [ast.unparse(e) for e in asg[0].targets[0].elts] if len(asg) == 1 and isinstance(asg[0].targets[0], ast.Tuple) and ast.unparse(asg[0].value) == s_.args.args[1].arg else None
+        except (KeyError, SyntaxError, FileNotFoundError, IndexError, AttributeError) as e:
+            res['status'], res['error'] = 'undecided', f'cannot read the two functions: {e!r}'
+            return res
+        if out is None or inn is None:
+            res['status'], res['error'] = 'undecided', 'the state is not written / read as one tuple of attributes'
+            return res
+        ob = Obligation(f'{self.qual}: the pickled state lists all eight attributes, and __setstate__ reads them back in the same order (written {out}, read {inn})', [],
+                        z3.BoolVal(out == inn and {x.replace('self.', '') for x in out} == self.FIELDS and len(out) == 8), [g.lineno], 'assert')
+        ob.unit = self.name
+        res['obligations'].append(ob)
+        return res
+
+    def load(self, override=None):
+        import hashlib
+        from pyvc.unit import load_source, find_function
+        src = load_source(self.file, override)
+        tree = ast.parse(src)
+        g, s_ = find_function(tree, 'IterableQueue.__getstate__'), find_function(tree, 'IterableQueue.__setstate__')
+        seg = ast.get_source_segment(src, g)
+        return g, hashlib.sha256(seg.encode()).hexdigest(), seg
+
+
+class IQPut(Unit):
+    """IterableQueue.put(x, timeout): exactly one put of x on the data queue (with the caller's timeout where the queue supports one)."""
+    prop = 'C17'
+    file = F
+    qual = 'IterableQueue.put'
+    canaries = (('timeout dropped', 'self._q.put(x, timeout=timeout)', 'self._q.put(x)', ''),)
+
+    def setup(self, ex):
+        st = St()
+        self.x, self.timeout = z3.Const('x', Val), z3.Const('timeout', Val)
+        self.can = z3.Bool('can_timeout')
+        st.ghost['puts'] = ()
+
+        def put(e, s, a, k, n):
+            s = s.fork()
+            s.ghost['puts'] = s.ghost['puts'] + ((box(e, a[0]), box(e, k['timeout']) if 'timeout' in k else None),)
+            exc = fresh('put_exc')
+            s2 = s.fork().assume(V.isinst(exc, 'BaseException'), *V.cls_facts(exc))
+            return [('ok', s, NONE), ('raise', s2, exc)]
+        me = Rec(ex, 'self', immutable=True).init(st, _can_timeout=self.can, _q=Rec(ex, 'q', immutable=True, methods={'put': Fn(put)}))
+        st.env.update(self=me, x=self.x, timeout=self.timeout)
+        ex.globals['type'] = Fn(lambda e, s, a, k, n: [('ok', s, Rec(e, 'cls', immutable=True).init(s, __name__=z3.StringVal('Q')))])
+        return st
+
+    def post(self, ex, outs):
+        for k, s, p in outs:
+            puts = s.ghost['puts']
+            if len(puts) == 0:
+                ex.oblige(s, 'exit: nothing put only when a timeout was asked of a queue that cannot time out (ValueError)', z3.And(z3.BoolVal(k == 'raise'), V.isinst(p, 'ValueError') if k == 'raise' else z3.BoolVal(False), z3.Not(self.can), self.timeout != NONE))
+            else:
+                ex.oblige(s, 'exit: exactly one put of x on the data queue, with the caller\'s timeout where the queue supports one',
+                          z3.And(z3.BoolVal(len(puts) == 1), puts[0][0] == self.x, z3.If(self.can, (puts[0][1] == self.timeout) if puts[0][1] is not None else z3.BoolVal(False), z3.BoolVal(puts[0][1] is None))))
+
+
+UNITS_IQ_EXTRA = [IQInit, IQInitStop, IQInitProcess, IQInitMpSimple, IQInitMpSimpleStop, IQState, IQPut]
+
+UNITS = UNITS_IQ_EXTRA + [NextUnit, PutEndUnit, RenewUnit, GetPutUnit, GetPutUnitNoTimeout, RQGet, RQPut, C17Lemma]
 SCENARIOS = [('', 'replay/scenarios/c17_double_end_marker.py')]
